@@ -10,12 +10,15 @@ import sys
 import time
 
 VERIF = os.path.dirname(os.path.dirname(os.path.abspath(__file__)))
-REPO = "/repo"
-WORK = os.path.join(VERIF, "work")
+# The registered commands always run against /repo.  VERIF_REPO/VERIF_WORK exist only for lib/seedtest.sh, which
+# evaluates the checks on a scratch worktree carrying a seeded change without touching /repo or the evidence.
+REPO = os.environ.get("VERIF_REPO", "/repo")
+ALT_REPO = REPO != "/repo"
+WORK = os.environ.get("VERIF_WORK", os.path.join(VERIF, "work"))
 SPEC = os.path.join(VERIF, "spec")
 HARNESS = os.path.join(VERIF, "harness")
-EVIDENCE = os.path.join(VERIF, "evidence")
-REPLAYS = os.path.join(VERIF, "replays")
+EVIDENCE = os.path.join(WORK, "evidence") if ALT_REPO else os.path.join(VERIF, "evidence")
+REPLAYS = os.path.join(WORK, "replays") if ALT_REPO else os.path.join(VERIF, "replays")
 KNOWN = os.path.join(VERIF, "known_findings.json")
 
 TLC_CP = "/opt/veriftools/tla/tla2tools.jar:/opt/veriftools/tla/CommunityModules-deps.jar"
@@ -54,6 +57,8 @@ def build(variant):
     if toolchain:
         cmd.append("+" + toolchain)
     cmd += ["build", "--offline", "--no-default-features", "--quiet"] + prof
+    if ALT_REPO:
+        cmd += ["--config", 'paths=["%s/crates/sas-lexer"]' % REPO]
     if feats:
         cmd += ["--features", ",".join(feats)]
     env = dict(os.environ)
